@@ -522,23 +522,31 @@ theorem Rel.fill {r : Reader} {pos : Nat} {bom : Bom} {d : Bytes} (h : Rel r pos
       · intro hc0; exact absurd hc0 hc
 
 /-- the call stopped with an error that is not the reference's: `BufferFull` (the window already filled the non-empty
-buffer of capacity `cap`) or an I/O error of the underlying `Read` -/
-def FullAlt {α : Type} (cap : Nat) (d : Bytes) (res : Res α) : Prop :=
-  cap ≠ 0 ∧ ∃ r', (res = .err r' .full ∧ cap ≤ r'.win.length ∧ r'.win.length ≤ d.length) ∨ res = .err r' .io
+buffer of capacity `cap`; `Q` says what the carried window is) or an I/O error of the underlying `Read` -/
+def FullAlt {α : Type} (Q : Nat → Prop) (cap : Nat) (d : Bytes) (res : Res α) : Prop :=
+  cap ≠ 0 ∧ ∃ r', (res = .err r' .full ∧ cap ≤ r'.win.length ∧ r'.win.length ≤ d.length ∧ Q r'.win.length) ∨ res = .err r' .io
 
-theorem FullAlt.mk_full {α : Type} {cap : Nat} {d : Bytes} {res : Res α} (r' : Reader) (h1 : res = .err r' .full)
-    (h2 : cap ≠ 0) (h3 : cap ≤ r'.win.length) (h4 : r'.win.length ≤ d.length) : FullAlt cap d res :=
-  ⟨h2, r', Or.inl ⟨h1, h3, h4⟩⟩
+theorem FullAlt.mk_full {α : Type} {Q : Nat → Prop} {cap : Nat} {d : Bytes} {res : Res α} (r' : Reader) (h1 : res = .err r' .full)
+    (h2 : cap ≠ 0) (h3 : cap ≤ r'.win.length) (h4 : r'.win.length ≤ d.length) (h5 : Q r'.win.length) : FullAlt Q cap d res :=
+  ⟨h2, r', Or.inl ⟨h1, h3, h4, h5⟩⟩
 
-theorem FullAlt.mk_io {α : Type} {cap : Nat} {d : Bytes} {res : Res α} (r' : Reader) (h1 : res = .err r' .io)
-    (h2 : cap ≠ 0) : FullAlt cap d res :=
+theorem FullAlt.mk_io {α : Type} {Q : Nat → Prop} {cap : Nat} {d : Bytes} {res : Res α} (r' : Reader) (h1 : res = .err r' .io)
+    (h2 : cap ≠ 0) : FullAlt Q cap d res :=
   ⟨h2, r', Or.inr h1⟩
 
-theorem FullAlt.mono {α : Type} {cap : Nat} {d d' : Bytes} {res : Res α} (h : FullAlt cap d' res) (hl : d'.length ≤ d.length) :
-    FullAlt cap d res := by
+theorem FullAlt.mono {α : Type} {Q Q' : Nat → Prop} {cap : Nat} {d d' : Bytes} {res : Res α} (h : FullAlt Q cap d' res)
+    (hl : d'.length ≤ d.length) (hq : ∀ k, Q k → Q' k) : FullAlt Q' cap d res := by
   obtain ⟨h2, r', h | h⟩ := h
-  · exact ⟨h2, r', Or.inl ⟨h.1, h.2.1, by omega⟩⟩
+  · exact ⟨h2, r', Or.inl ⟨h.1, h.2.1, by omega, hq _ h.2.2.2⟩⟩
   · exact ⟨h2, r', Or.inr h⟩
+
+/-- the carried window when `BufferFull` hits inside a quoted scalar: a part `a'` of the body, still unterminated -/
+def QuoteCarry (a rest : Bytes) (k : Nat) : Prop :=
+  ∃ a' : Bytes, a'.length = k ∧ a <+: a' ∧ a' <+: a ++ rest ∧ quoteEnd a' 0 = none
+
+/-- the carried window when `BufferFull` hits inside an unquoted scalar: its first byte and a boundary-free part -/
+def UnqCarry (body rest : Bytes) (k : Nat) : Prop :=
+  ∃ body' : Bytes, body'.length + 1 = k ∧ body <+: body' ∧ body' <+: body ++ rest ∧ findIdx isBoundary body' 0 = none
 
 /-! ### continuing inside a quoted scalar across refills -/
 
@@ -547,7 +555,7 @@ theorem run_quote (n : Nat) : ∀ (r : Reader) (pos : Nat) (bom : Bom) (d junk a
     quoteEnd a 0 = none →
     (∀ x, quoteEnd (a ++ x) 0 = quoteEnd ((a ++ x).drop off) off) →
     2 * r.src.rest.length + 2 ≤ fuel →
-    FullAlt r.cap d (run fuel (.refill .quote a.length off) r) ∨
+    FullAlt (QuoteCarry a r.src.rest) r.cap d (run fuel (.refill .quote a.length off) r) ∨
     match quoteEnd (a ++ r.src.rest) 0 with
     | some m => ∃ r', run fuel (.refill .quote a.length off) r = .ok r' (some (.quoted ((a ++ r.src.rest).take m))) ∧
         Rel r' (pos + junk.length + (m + 1)) bom ((a ++ r.src.rest).drop (m + 1)) ∧ r'.cap = r.cap
@@ -567,7 +575,9 @@ theorem run_quote (n : Nat) : ∀ (r : Reader) (pos : Nat) (bom : Bom) (d junk a
       refine FullAlt.mk_io rio ?_ (by rw [← hcap0]; exact hc1)
       rw [run]; simp only [e, hadv, hgt, if_false, hfill]
     · left
+      have hwin0' : r0.win = a := by rw [hwin0, hwin]; simp
       refine FullAlt.mk_full r0 ?_ (by rw [← hcap0]; exact hc1) (by rw [← hcap0]; exact hc2) hw0
+        ⟨a, by rw [hwin0'], List.prefix_refl _, List.prefix_append _ _, hnone⟩
       rw [run]; simp only [e, hadv, hgt, if_false, hfill]
     · right
       simp only [he, List.append_nil, hnone]
@@ -590,6 +600,7 @@ theorem run_quote (n : Nat) : ∀ (r : Reader) (pos : Nat) (bom : Bom) (d junk a
       rw [run]; simp only [e, hadv, hgt, if_false, hfill]
     · left
       refine FullAlt.mk_full r0 ?_ (by rw [← hcap0]; exact hc1) (by rw [← hcap0]; exact hc2) hw0
+        ⟨a, by rw [hwin0'], List.prefix_refl _, List.prefix_append _ _, hnone⟩
       rw [run]; simp only [e, hadv, hgt, if_false, hfill]
     · right
       have he : r.src.rest = [] := by rw [← hsrc0]; exact he0
@@ -652,7 +663,10 @@ theorem run_quote (n : Nat) : ∀ (r : Reader) (pos : Nat) (bom : Bom) (d junk a
         rcases this with hfa | hok
         · left
           rw [hcap1, hcap0] at hfa
-          exact hfa.mono (by rw [hdata]; simp)
+          refine hfa.mono (by rw [hdata]; simp) ?_
+          rintro k ⟨a', h1', h2', h3', h4'⟩
+          refine ⟨a', h1', List.IsPrefix.trans (List.prefix_append _ _) h2', ?_, h4'⟩
+          rw [hd1]; exact h3'
         · right
           cases hqe : quoteEnd (a ++ r.src.rest) 0 with
           | none =>
@@ -684,7 +698,7 @@ theorem run_unq (n : Nat) : ∀ (r : Reader) (pos : Nat) (bom : Bom) (d junk : B
     r.src.rest.length ≤ n → Rel r pos bom d → r.win = junk ++ c :: body →
     findIdx isBoundary body 0 = none →
     2 * r.src.rest.length + 2 ≤ fuel →
-    FullAlt r.cap d (run fuel (.refill .unquoted (body.length + 1) (body.length + 1)) r) ∨
+    FullAlt (UnqCarry body r.src.rest) r.cap d (run fuel (.refill .unquoted (body.length + 1) (body.length + 1)) r) ∨
     match findIdx isBoundary (body ++ r.src.rest) 0 with
     | some k => ∃ r', run fuel (.refill .unquoted (body.length + 1) (body.length + 1)) r =
           .ok r' (some (.unquoted ((c :: (body ++ r.src.rest)).take (1 + k)))) ∧
@@ -707,7 +721,9 @@ theorem run_unq (n : Nat) : ∀ (r : Reader) (pos : Nat) (bom : Bom) (d junk : B
       refine FullAlt.mk_io rio ?_ (by rw [← hcap0]; exact hc1)
       rw [run]; simp only [e, hadv, hgt, if_false, hfill]
     · left
+      have hwin0' : r0.win = c :: body := by rw [hwin0, hwin]; simp
       refine FullAlt.mk_full r0 ?_ (by rw [← hcap0]; exact hc1) (by rw [← hcap0]; exact hc2) hw0
+        ⟨body, by rw [hwin0']; simp, List.prefix_refl _, List.prefix_append _ _, hnone⟩
       rw [run]; simp only [e, hadv, hgt, if_false, hfill]
     · right
       have hwin1' : r1.win = c :: body := by rw [hwin1, hwin0, hwin]; simp
@@ -740,6 +756,7 @@ theorem run_unq (n : Nat) : ∀ (r : Reader) (pos : Nat) (bom : Bom) (d junk : B
       rw [run]; simp only [e, hadv, hgt, if_false, hfill]
     · left
       refine FullAlt.mk_full r0 ?_ (by rw [← hcap0]; exact hc1) (by rw [← hcap0]; exact hc2) hw0
+        ⟨body, by rw [hwin0']; simp, List.prefix_refl _, List.prefix_append _ _, hnone⟩
       rw [run]; simp only [e, hadv, hgt, if_false, hfill]
     · right
       have he : r.src.rest = [] := by rw [← hsrc0]; exact he0
@@ -811,7 +828,10 @@ theorem run_unq (n : Nat) : ∀ (r : Reader) (pos : Nat) (bom : Bom) (d junk : B
         rcases this with hfa | hok
         · left
           rw [hcap1, hcap0] at hfa
-          exact hfa.mono (by rw [hdata]; simp)
+          refine hfa.mono (by rw [hdata]; simp) ?_
+          rintro k ⟨b', h1', h2', h3', h4'⟩
+          refine ⟨b', h1', List.IsPrefix.trans (List.prefix_append _ _) h2', ?_, h4'⟩
+          rw [← hassoc]; exact h3'
         · right
           cases hfin : findIdx isBoundary (body ++ r.src.rest) 0 with
           | some kk =>
@@ -963,12 +983,96 @@ def OutOk (res : Res (Option Token)) (cap : Nat) (pos : Nat) (bom : Bom) (d : By
   | some (.eof a _) => ∃ r', res = .err r' .eof ∧ r'.position = pos + a
   | none => True
 
-/-- … or the call ended in `BufferFull` because the window already filled the buffer (capacity `cap`). -/
-def Out (res : Res (Option Token)) (cap : Nat) (pos : Nat) (bom : Bom) (d : Bytes) : Prop :=
-  FullAlt cap d res ∨ OutOk res cap pos bom d
-
 theorem Skips.nil_eq {pos0 : Bool} {i : Nat} {bom bom' : Bom} (h : Skips pos0 [] i bom bom') : bom' = bom := by
   cases h; rfl
+
+/-- `k` is the number of bytes the scan of some window `w` (a prefix of the remaining input `d`) asks to carry over a
+refill (or the window length when the BOM arm asks for more bytes) -/
+def CarryB (pos0 : Bool) (bom : Bom) (d : Bytes) (k : Nat) : Prop :=
+  ∃ w b, d = w ++ b ∧
+    ((∃ bom' st off, fbLoop pos0 w .top 0 bom = (bom', .refill st k off)) ∨
+     (∃ bom', fbLoop pos0 w .top 0 bom = (bom', .bomFill) ∧ k = w.length))
+
+/-- … with the BOM state of the call, or with the BOM ruled out (the re-scan after the BOM arm's refill hit the end) -/
+def Carry (pos0 : Bool) (bom : Bom) (d : Bytes) (k : Nat) : Prop :=
+  CarryB pos0 bom d k ∨ (d.length < 3 ∧ CarryB pos0 .notPresent d k)
+
+/-- … or the call ended in `BufferFull` because the window already filled the buffer (capacity `cap`): the window is
+then a carry of the scan of a prefix of `d`; or the `Read` failed. -/
+def Out (res : Res (Option Token)) (cap : Nat) (pos : Nat) (bom : Bom) (d : Bytes) : Prop :=
+  FullAlt (Carry (pos == 0) bom d) cap d res ∨ OutOk res cap pos bom d
+
+/-- away from stream position 0 the scan does not depend on the BOM state -/
+theorem fbLoop_false_scan (n : Nat) : ∀ (w : Bytes) (m : Mode) (i : Nat) (b1 b2 : Bom), w.length ≤ n →
+    (fbLoop false w m i b1).2 = (fbLoop false w m i b2).2 := by
+  induction n with
+  | zero =>
+    intro w m i b1 b2 hl
+    have : w = [] := List.eq_nil_of_length_eq_zero (by omega)
+    subst this; cases m <;> simp [fbLoop]
+  | succ n ih =>
+    intro w m i b1 b2 hl
+    cases w with
+    | nil => cases m <;> simp [fbLoop]
+    | cons c rest =>
+      have hr : rest.length ≤ n := by simp at hl; omega
+      cases m with
+      | comment s =>
+        simp only [fbLoop_comment_cons]
+        split <;> exact ih rest _ _ _ _ hr
+      | top =>
+        simp only [fbLoop_top_cons]
+        split; · exact ih rest _ _ _ _ hr
+        split; · exact ih rest _ _ _ _ hr
+        simp only [Bool.not_false, Bool.or_true, if_true]
+        split <;> split <;> rfl
+
+theorem Carry_skip {pos : Nat} {pre y : Bytes} {bom bom_s : Bom} (hs : Skips (pos == 0) pre 0 bom bom_s) (k : Nat)
+    (h : Carry (pos + pre.length == 0) bom_s y k) : Carry (pos == 0) bom (pre ++ y) k := by
+  by_cases hne : pre = []
+  · subst hne
+    have := hs.nil_eq; subst this
+    simpa using h
+  · have hk : 0 < pre.length := by cases pre with | nil => exact absurd rfl hne | cons _ _ => simp
+    have hp : (pos + pre.length == 0) = false := by
+      have : pos + pre.length ≠ 0 := by omega
+      simpa using this
+    rw [hp] at h
+    -- the carry does not depend on the BOM state here
+    have hB : CarryB false bom_s y k := by
+      rcases h with h | ⟨_, w, b, hd, hh⟩
+      · exact h
+      · refine ⟨w, b, hd, ?_⟩
+        have hind := fbLoop_false_scan w.length w .top 0 .notPresent bom_s (Nat.le_refl _)
+        rcases hh with ⟨bom', st, off, hf⟩ | ⟨bom', hf, hkw⟩
+        · left; refine ⟨(fbLoop false w .top 0 bom_s).1, st, off, ?_⟩
+          rw [hf] at hind; simp only at hind
+          exact Prod.ext rfl hind.symm
+        · right; refine ⟨(fbLoop false w .top 0 bom_s).1, ?_, hkw⟩
+          rw [hf] at hind; simp only at hind
+          exact Prod.ext rfl hind.symm
+    obtain ⟨w, b, hd, hh⟩ := hB
+    left
+    refine ⟨pre ++ w, b, by rw [hd]; simp, ?_⟩
+    have hfb : fbLoop (pos == 0) (pre ++ w) .top 0 bom =
+        ((fbLoop false w .top 0 bom_s).1, shiftScan pre.length (fbLoop false w .top 0 bom_s).2) := by
+      rw [hs.fbLoop]
+      have := fbLoop_shift (pos == 0) pre.length hk w.length w .top 0 bom_s (Nat.le_refl _)
+      simpa [shiftMode] using this
+    rcases hh with ⟨bom', st, off, hf⟩ | ⟨bom', hf, _⟩
+    · left; exact ⟨bom', st, off, by rw [hfb, hf]; rfl⟩
+    · -- the BOM arm never asks for bytes away from position 0
+      exfalso
+      obtain ⟨p2, t2, b2, rfl, hs2, ht2⟩ := decompose false w.length w 0 bom_s (Nat.le_refl _)
+      rw [hs2.fbLoop] at hf
+      simp only [Nat.zero_add] at ht2 hf
+      rcases fbLoop_tail ht2 with ⟨_, h1⟩ | ⟨a, _, h1⟩ | ⟨c, r, bomR, rfl, _, _, h1⟩ | ⟨r, _, _, hbc, _⟩
+      · rw [h1] at hf; simp at hf
+      · rw [h1] at hf; simp at hf
+      · have := h1 []; simp only [List.append_nil] at this; rw [this] at hf
+        simp only [Prod.mk.injEq] at hf
+        exact tokenAt_not_bomFill _ _ _ hf.2
+      · exact absurd hbc.2.2.2 (by simp)
 
 theorem OutOk_skip {res : Res (Option Token)} {cap pos : Nat} {pre y : Bytes} {bom bom_s : Bom}
     (hs : Skips (pos == 0) pre 0 bom bom_s) (h : OutOk res cap (pos + pre.length) bom_s y) : OutOk res cap pos bom (pre ++ y) := by
@@ -1010,7 +1114,7 @@ theorem OutOk_skip {res : Res (Option Token)} {cap pos : Nat} {pre y : Bytes} {b
 theorem Out_skip {res : Res (Option Token)} {cap pos : Nat} {pre y : Bytes} {bom bom_s : Bom}
     (hs : Skips (pos == 0) pre 0 bom bom_s) (h : Out res cap (pos + pre.length) bom_s y) : Out res cap pos bom (pre ++ y) := by
   rcases h with h | h
-  · left; exact h.mono (by simp)
+  · left; exact h.mono (by simp) (Carry_skip hs)
   · right; exact OutOk_skip hs h
 
 end Jomini.TextReader
@@ -1088,7 +1192,10 @@ theorem core_rescan {r : Reader} {pos : Nat} {bom bom_s : Bom} {d pre tail : Byt
     exact FullAlt.mk_io rio rfl (by rw [← hcap0]; exact hc1)
   · left
     rw [hfill]
-    exact FullAlt.mk_full r0 rfl (by rw [← hcap0]; exact hc1) (by rw [← hcap0]; exact hc2) (by rw [hwin0', hd]; simp; omega)
+    refine FullAlt.mk_full r0 rfl (by rw [← hcap0]; exact hc1) (by rw [← hcap0]; exact hc2) (by rw [hwin0', hd]; simp; omega) ?_
+    left
+    refine ⟨pre ++ tail, r.src.rest, by rw [hd]; simp, Or.inl ⟨bom_s, .none, off, ?_⟩⟩
+    rw [hwin0']; exact hscan
   · right
     have he : r.src.rest = [] := by rw [← hsrc0]; exact he0
     rw [hfill]
@@ -1237,7 +1344,23 @@ theorem core_token {r : Reader} {pos : Nat} {bom bom_s bomR : Bom} {d pre tl : B
         rw [run_fallback_unfold, hrel.pos, hrel.bom, hscanW, htok]
       rw [hrun]
       rcases hq with hfa | hq
-      · left; exact hfa
+      · left
+        refine hfa.mono (Nat.le_refl _) ?_
+        rintro k ⟨a', hk, ⟨x', rfl⟩, ⟨b', hb'⟩, hnone'⟩
+        -- the window `pre ++ " ++ a'` is a prefix of `d` whose scan carries `a'`
+        left
+        refine ⟨pre ++ (34 :: tl ++ x'), b', ?_, Or.inl ⟨bomR, .quote, ?_⟩⟩
+        · rw [hd]; simp only [List.cons_append, List.append_assoc] at hb' ⊢
+          rw [← hb']
+        · have hsc := hscan x'
+          cases hqs' : quoteScan (tl ++ x') 0 with
+          | closed n' => have := quoteScan_closed hqs'; rw [hnone'] at this; simp at this
+          | more c' o' =>
+            have hc'' := (quoteScan_more hqs').2.1
+            simp only [Nat.zero_add] at hc''
+            refine ⟨o', ?_⟩
+            rw [hsc, tokenAt_quote]; unfold quoteTok; rw [hqs']
+            simp only [hc'', hk]
       right
       unfold OutOk specStep
       rw [hscanD, tokenAt_quote]
@@ -1272,7 +1395,15 @@ theorem core_token {r : Reader} {pos : Nat} {bom bom_s bomR : Bom} {d pre tl : B
         rw [run_fallback_unfold, hrel.pos, hrel.bom, hscanW, htok]
       rw [hrun]
       rcases hq with hfa | hq
-      · left; exact hfa
+      · left
+        refine hfa.mono (Nat.le_refl _) ?_
+        rintro k ⟨b1, hk, ⟨x', rfl⟩, ⟨b', hb'⟩, hnone'⟩
+        left
+        refine ⟨pre ++ (c :: tl ++ x'), b', ?_, Or.inl ⟨bomR, .unquoted, (tl ++ x').length + 1, ?_⟩⟩
+        · rw [hd]; simp only [List.cons_append, List.append_assoc] at hb' ⊢
+          rw [← hb']
+        · rw [hscan x', hunq x']; unfold unqTok; rw [hnone']
+          simp only [hk]
       right
       unfold OutOk specStep
       rw [hscanD, hunq]
@@ -1361,7 +1492,9 @@ theorem run_fallback_spec : ∀ (n : Nat) (r : Reader) (pos : Nat) (bom : Bom) (
         exact FullAlt.mk_io rio rfl hc1
       · left
         rw [hfill]
-        exact FullAlt.mk_full r rfl hc1 hc2 hrel.win_le
+        refine FullAlt.mk_full r rfl hc1 hc2 hrel.win_le ?_
+        left
+        exact ⟨r.win, r.src.rest, hrel.data.symm, Or.inr ⟨.unknown, hscanW, rfl⟩⟩
       · rw [hfill]
         simp only
         obtain ⟨f', rfl⟩ : ∃ f', f = f' + 1 := ⟨f - 1, by omega⟩
@@ -1392,7 +1525,13 @@ theorem run_fallback_spec : ∀ (n : Nat) (r : Reader) (pos : Nat) (bom : Bom) (
           | tok _ _ => rfl
           | refill _ _ _ => rfl
         rcases hout with hfa | hok
-        · left; exact hfa
+        · left
+          refine hfa.mono (Nat.le_refl _) ?_
+          intro k hk
+          have hlen3 : d.length < 3 := by rw [hdw]; simp; omega
+          rcases hk with hk | hk
+          · exact Or.inr ⟨hlen3, hk⟩
+          · exact Or.inr hk
         · right; unfold OutOk at hok ⊢; rw [hspec]; exact hok
       · rw [hfill]
         simp only
